@@ -604,12 +604,12 @@ func genC20(p *Plan, tier string) {
 			c := g.ViolateOne()
 			op := httpOp(id+":"+c.Name, JSONBytes(c.Body))
 			op.MapOrder = randMapOrder(r)
-			op.Expect = &Expect{Class: "reject", Contains: c.Contains, Name: c.Name, NoShrink: true}
+			op.Expect = &Expect{Class: "reject", Contains: c.Contains, Name: c.Name, NoShrink: true, EchoReq: true}
 			p.Ops = append(p.Ops, op)
 		case 5, 6: // arbitrary bodies
 			kindName, body := g.Hostile()
 			op := httpOp(id+":"+kindName, body)
-			op.Expect = &Expect{Class: "any", Name: kindName}
+			op.Expect = &Expect{Class: "any", Name: kindName, EchoReq: true}
 			p.Ops = append(p.Ops, op)
 		case 7: // internal failure injected at a pipeline position
 			q := g.Valid()
